@@ -94,6 +94,7 @@ type Ctx struct {
 	hasQ    bool
 	ifaceTags map[string]int
 	globals []string
+	pending []Term // definitional facts to be asserted (they may mention bound variables' skolems)
 }
 
 func NewCtx() *Ctx {
@@ -120,7 +121,25 @@ func NewCtx() *Ctx {
 }
 
 func (c *Ctx) emit(s string) { c.lines = append(c.lines, s) }
-func (c *Ctx) mark() int      { return len(c.lines) }
+func (c *Ctx) mark() int {
+	c.flush()
+	return len(c.lines)
+}
+
+// flush asserts pending definitional facts that are closed terms.
+func (c *Ctx) flush() {
+	p := c.pending
+	c.pending = nil
+	for _, t := range p {
+		if strings.Contains(t, "q_") {
+			// mentions a bound variable of an enclosing quantifier: the
+			// definition cannot be stated at top level; drop it (the
+			// predicate stays uninterpreted for that application: sound).
+			continue
+		}
+		c.lines = append(c.lines, "(assert "+t+")")
+	}
+}
 
 func (c *Ctx) fresh(hint string) string {
 	c.n++
@@ -149,6 +168,9 @@ func (c *Ctx) declConst(name, sort string) Term {
 func (c *Ctx) define(hint, sort string, t Term) Term {
 	if len(t) < 40 && !strings.Contains(t, " ") {
 		return t
+	}
+	if strings.HasPrefix(t, "(|fa ") {
+		return t // keep addresses structural: reads are resolved syntactically
 	}
 	n := c.fresh(hint)
 	c.emit(fmt.Sprintf("(define-fun %s () %s %s)", n, sort, t))
@@ -529,16 +551,80 @@ func (c *Ctx) zeroOfSort(s string) Term {
 type MemState struct {
 	m     map[string]Term
 	epoch int
+	// w[key]: the writes made to ms.m[key] on top of w-base, newest last;
+	// used to resolve reads syntactically (select-over-store) at generation
+	// time. Valid only while ms.m[key] == wtop[key].
+	w    map[string][]memWrite
+	wtop map[string]Term
 }
 
-func NewMem() *MemState { return &MemState{m: map[string]Term{}} }
+type memWrite struct {
+	addr, val Term
+	below     Term // the array term under this write
+}
+
+func NewMem() *MemState {
+	return &MemState{m: map[string]Term{}, w: map[string][]memWrite{}, wtop: map[string]Term{}}
+}
 
 func (ms *MemState) clone() *MemState {
-	n := &MemState{m: make(map[string]Term, len(ms.m)), epoch: ms.epoch}
+	n := &MemState{m: make(map[string]Term, len(ms.m)), epoch: ms.epoch, w: map[string][]memWrite{}, wtop: map[string]Term{}}
 	for k, v := range ms.m {
 		n.m[k] = v
 	}
+	for k, v := range ms.w {
+		n.w[k] = append([]memWrite{}, v...)
+	}
+	for k, v := range ms.wtop {
+		n.wtop[k] = v
+	}
 	return n
+}
+
+// addrDistinct: syntactic proof that two address terms differ.
+func addrDistinct(a, b Term) bool {
+	ha, hb := faHead(a), faHead(b)
+	if ha != "" && hb != "" {
+		return ha != hb
+	}
+	isRoot := func(t Term) bool {
+		return strings.HasPrefix(t, "alloc_") || strings.HasPrefix(t, "|glob ") || strings.Contains(t, "alloc_") && !strings.Contains(t, " ")
+	}
+	if (ha != "" && isRoot(b)) || (hb != "" && isRoot(a)) {
+		return true
+	}
+	return false
+}
+
+func faHead(t Term) string {
+	if strings.HasPrefix(t, "(|fa ") {
+		if j := strings.Index(t[1:], "| "); j >= 0 {
+			return t[1 : j+2]
+		}
+	}
+	return ""
+}
+
+// readCell resolves select(ms.m[key], addr) through the recorded writes.
+func (c *Ctx) readCell(ms *MemState, key string, arr Term, addr Term) Term {
+	if ms.wtop[key] == arr {
+		ws := ms.w[key]
+		for i := len(ws) - 1; i >= 0; i-- {
+			if ws[i].addr == addr {
+				return ws[i].val
+			}
+			if !addrDistinct(ws[i].addr, addr) {
+				if i == len(ws)-1 {
+					return app("select", arr, addr)
+				}
+				return app("select", ws[i+1].below, addr)
+			}
+		}
+		if len(ws) > 0 {
+			return app("select", ws[0].below, addr)
+		}
+	}
+	return app("select", arr, addr)
 }
 
 var memSorts = map[string]string{}
@@ -585,6 +671,8 @@ func (c *Ctx) havocAll(ms *MemState) {
 	epochCounter++
 	ms.epoch = epochCounter
 	ms.m = map[string]Term{}
+	ms.w = map[string][]memWrite{}
+	ms.wtop = map[string]Term{}
 }
 
 func (c *Ctx) fieldAddr(base Term, st types.Type, idx int) Term {
@@ -637,7 +725,7 @@ func (c *Ctx) load(ms *MemState, addr Term, t types.Type) Val {
 	sorts := c.leafSorts(t)
 	ls := make([]Term, len(sorts))
 	for i, s := range sorts {
-		ls[i] = app("select", c.memGet(ms, t, i, s), addr)
+		ls[i] = c.readCell(ms, c.memName(t, i), c.memGet(ms, t, i, s), addr)
 	}
 	v, _ := c.build(t, ls)
 	return v
@@ -666,7 +754,14 @@ func (c *Ctx) store(ms *MemState, addr Term, t types.Type, v Val) {
 	for i, s := range sorts {
 		old := c.memGet(ms, t, i, s)
 		nt := app("store", old, addr, ls[i])
-		ms.m[c.memName(t, i)] = c.define("mem", arrSort(SRef, s), nt)
+		k := c.memName(t, i)
+		nn := c.define("mem", arrSort(SRef, s), nt)
+		if ms.wtop[k] != old {
+			ms.w[k] = nil
+		}
+		ms.w[k] = append(ms.w[k], memWrite{addr: addr, val: ls[i], below: old})
+		ms.wtop[k] = nn
+		ms.m[k] = nn
 	}
 }
 
@@ -726,7 +821,8 @@ func (c *Ctx) mergeMem(conds []Term, mems []*MemState) *MemState {
 			keys[k] = true
 		}
 	}
-	out := &MemState{m: map[string]Term{}, epoch: mems[0].epoch}
+	out := NewMem()
+	out.epoch = mems[0].epoch
 	if !sameEpoch {
 		// every key known so far gets an explicit merged array; keys first
 		// read later resolve to a fresh epoch (sound over-approximation).
